@@ -74,12 +74,18 @@ def _check_obs(dom, label_prefix, obs, values, fails, sigbase, case, job):
             fails.append((sigbase + '|%s:%s|wrong-observation' % (label_prefix, label), case, exp_r, repr(v), job))
 
 
+def _is_maybe(mp):
+    """('MAYBE', state): the operation may give an error value instead (request the book does not define)"""
+    return isinstance(mp, tuple) and len(mp) == 2 and mp[0] == 'MAYBE'
+
+
 def _edges(args):
     """worker: run a chunk of edges; returns per edge (status, fingerprint-dump, failures)"""
     dom, edges = args
     units = []
     metas = []
-    for i, (hexpr, m, oplabel, op_expr, m_post) in enumerate(edges):
+    edges = [(h, m, ol, oe, (mp[1] if _is_maybe(mp) else mp), _is_maybe(mp)) for (h, m, ol, oe, mp) in edges]
+    for i, (hexpr, m, oplabel, op_expr, m_post, maybe) in enumerate(edges):
         obs_pre = dom.observers(m)
         expect_err = (m_post == ERR)
         obs_post = [] if expect_err else dom.observers(m_post)
@@ -88,7 +94,7 @@ def _edges(args):
         metas.append((obs_pre, obs_post, expect_err, src))
     outs = run_units(units, prelude=[dom.prelude] if dom.prelude else [], dump=dom.dump, limits=dom.limits, timeout=20.0)
     res = []
-    for (hexpr, m, oplabel, op_expr, m_post), (obs_pre, obs_post, expect_err, src), o in zip(edges, metas, outs):
+    for (hexpr, m, oplabel, op_expr, m_post, maybe), (obs_pre, obs_post, expect_err, src), o in zip(edges, metas, outs):
         fails = []
         sigbase = '%s|%s|%s' % (dom.prop, dom.key(m), oplabel)
         case = {'state': hexpr, 'op': op_expr, 'model_pre': repr(m), 'model_post': repr(m_post)}
@@ -101,6 +107,8 @@ def _edges(args):
             fails.append((sigbase + '|' + why, case, repr(m_post), repr(v), job))
             res.append(('crash', None, fails)); continue
         if isinstance(v, Err):
+            if maybe:
+                res.append(('allowed-error', None, fails)); continue
             # the whole edge is an error: either the operation failed although the model defines it, or an observer did
             fails.append((sigbase + '|error-should-be-value', case, repr(m_post), repr(v), job))
             res.append(('error', None, fails)); continue
@@ -145,6 +153,8 @@ def explore(rep, dom, max_depth, max_states=None, edge_chunk=60, binary_pool=lam
         for res in pmap(_edges, [(dom, c) for c in chunks(edges, edge_chunk)]):
             for status, fp, fails in res:
                 hexpr, m, oplabel, op_expr, m_post = edges[idx]
+                if _is_maybe(m_post):
+                    m_post = m_post[1]
                 idx += 1
                 rep.transitions += 1
                 rep.evaluations += 1
